@@ -63,7 +63,7 @@ CHECKS["C01"] = ("E2-sim + E3-puppet",
   "Two real daemons exchange one file per scenario under generated configuration (segment size, both modes, closure, checksum type, CRC, NAK procedure, limits, timeouts, id widths), "
   "adversarial content (zero runs, checksum-neutral word pairs, zero tail), link timing, scheduler seed and up to 5 faults (drop, duplicate, delay, bit corruption with CRC on); "
   "for every (NoError, Complete, Retained) Finished indication at either user the destination file, read at that moment and at the end, must equal the source. "
-  "Plus exhaustive families: one lost datagram at every position x weak-checksum contents x both modes; one flipped bit in the file data of each segment on a link without CRC (modular checksum); and a puppet-sender family (E3) in which a File Data PDU beyond the announced file size arrives before the EOF, between EOF and the rest of the data, or last. Sampled search: tens of thousands to millions of scenarios per run.",
+  "Plus exhaustive families: one lost datagram at every position x weak-checksum contents x both modes; one flipped bit in the file data of each segment on a link without CRC (modular checksum); and a puppet-sender family (E3) in which a File Data PDU beyond the announced file size arrives before the EOF, between EOF and the rest of the data, or last; and a family in which the source file is rewritten in place after the k-th datagram of the sender (the statement compares with the source as it was when the transfer was requested). Sampled search: tens of thousands to millions of scenarios per run.",
   "Single-threaded deterministic runtime (message orderings, not preemption). Trusts the harness link and the content generators.",
   "DESIGN.md §5 C01")
 CHECKS["C02"] = ("E2-sim",
@@ -91,8 +91,8 @@ CHECKS["C18"] = ("E2-sim",
 CHECKS["C10"] = ("E2-sim",
   "cancel-at-every-ordinal enumeration x adaptive loss of each post-cancel datagram x blackout variants on the real daemons + proptest; trace oracle on termination, reported condition and the destination file",
   "Both modes x closure x NAK procedure x sizes: a user Cancel at the sender or the receiver when the link sees datagram k of either direction, for every k of the baseline exchange (exhaustive), "
-  "each combined with the loss of every single datagram emitted after the cancel and with blackouts after the cancel; plus sampled cancel+random-fault scenarios. The cancelling side must be gone "
-  "within the bound, the peer too; both users see CancelReceived when nothing was lost, delivered or faulted before; the destination exists only after a reported complete delivery and then equals the source.",
+  "each combined with the loss of every single datagram emitted after the cancel and with blackouts after the cancel; plus sampled cancel+random-fault scenarios. A cancelled sender puts no Metadata/FileData on the link after the request; once the cancel has taken effect at the receiver that transaction does not go on to deliver the file; the cancelling side must be gone "
+  "within the bound, the peer too; both users see CancelReceived when nothing was lost, delivered or faulted before - or when one handshake PDU was lost and the limits permit its retransmission; the destination exists only after a reported complete delivery and then equals the source.",
   "The 'both report the cancel condition' clause is judged only on loss-free handshakes without a prior Finished/Fault indication. Unack-mode retention of an incomplete file by an EOF(NoError) is out of scope.",
   "DESIGN.md §5 C10")
 CHECKS["C19"] = ("E2-sim",
@@ -100,7 +100,7 @@ CHECKS["C19"] = ("E2-sim",
   "A user Suspend at the sender or receiver when the link sees datagram k of either direction (every k, delay 0/1 ms), Resume 0.5 s .. 100 s after the Suspended indication. Family 'silence' "
   "(suspended side: 1 s timers, peer: 400 s) checks that no Metadata/FileData/EOF/NAK/Finished leaves the suspended entity and no limit fault is declared between the indication (+pipeline slack) "
   "and the resume request; family 'completion' (3 s timers, suspension up to 6 s, one lost datagram at every ordinal in acknowledged mode) checks that the transfer then completes exactly as "
-  "C02 demands; any later limit fault must have L*min(T) of un-suspended time behind it. Family 'sampled' (proptest): the general scenario generator (any configuration, up to 3 faults) with a suspension of 0..8 s at either entity, judged for silence and timer faults only.",
+  "C02 demands; any later limit fault must have L*min(T) of un-suspended time behind it. Every suspension of the silence family also comes with a second Suspend request in its middle (one Resume must end it) and, for a suspended acknowledged-mode receiver, with a Prompt(NAK) from the peer's user. Family 'sampled' (proptest): the general scenario generator (any configuration, up to 3 faults) with a suspension of 0..8 s at either entity, judged for silence and timer faults only.",
   "ACK/keep-alive during suspension tolerated; two PDUs already in the transport pipeline may still appear. Exhaustive over ordinals of the listed configurations only.",
   "DESIGN.md §5 C19")
 CHECKS["C08"] = ("E3-puppet",
@@ -128,9 +128,9 @@ CHECKS["C20"] = ("E2-sim",
   "Window: events up to 2 ms earlier are surely counted, what may be in the 2-PDU transport pipeline (2 tau + 2 ms) may be; a delivered segment counts from the moment the receiver's FileSegmentRecv indication shows it was processed. Sampled.",
   "DESIGN.md §5 C20")
 CHECKS["C17"] = ("E3-puppet",
-  "grid enumeration of timeout x limit x handler x answers-before-expiry over 9 fault families with puppet peers (virtual clock); timestamp arithmetic on the trace",
+  "grid enumeration of timeout x limit x handler x answers-before-expiry over 12 fault families with puppet peers (virtual clock); timestamp arithmetic on the trace",
   "Puppet peers make each limit fault happen in isolation: sender ack limit, sender inactivity (with keep-alives or NAKs shortly before an expiry), receiver ack limit, receiver NAK limit (with partial "
-  "retransmissions shortly before the next round), receiver inactivity (with late segments 1 ms before an expiry), checksum failure, file-size error, and sender/receiver ack limit with a user suspension of 0.4..5.1 periods while waiting (suspended time must not count, every expiry still retransmits); timeouts 1..3 s, limits 1..4, handlers absent/cancel/"
+  "retransmissions shortly before the next round), receiver inactivity (with late segments 1 ms before an expiry), checksum failure, file-size error, and sender/receiver ack limit with a user suspension of 0.4..5.1 periods while waiting (suspended time must not count, every expiry still retransmits), and sender ack / receiver ack / receiver NAK limit handled by Suspend followed by a user Resume (the fault may be declared again only after another L expirations with their retransmissions); timeouts 1..3 s, limits 1..4, handlers absent/cancel/"
   "suspend/ignore/abandon, deferred/immediate NAK (exhaustive grid, repeated under other link timings and with the transaction tasks polled late, hook H5). The first fault must have the expected condition, come L*T after the event that restarted the count (never earlier, not later), "
   "with exactly L transmissions of EOF/Finished (resp. L NAK rounds) before it, and the configured action must follow.",
   "Tolerance 3 tau + 6 ms. With Ignore only the absence of cancel/abandon/suspend/termination is required.",
@@ -154,7 +154,7 @@ CHECKS["C04"] = ("E3-puppet + E2-sim",
 CHECKS["C11"] = ("E2-sim",
   "seeded generation of multi-daemon, multi-transaction scenarios with random link faults, injected stray PDUs and replays on the real daemons; per-transaction identity oracle + routing + termination + health check",
   "2-3 real daemons, 2..24 overlapping Puts in any direction and mode with per-transaction tagged contents and destinations, six families (loss-free; + strays; one lost datagram per directed link, with and without strays, where acknowledged Puts must still succeed; lossy + strays; strays + replay/reflection of an ended "
-  "transaction's PDUs; a burst of 120..320 datagrams handed to one daemon in one instant with the receive transaction polled late, so that its mailbox runs full); strays include responses that carry the sequence number of a live send transaction but a foreign source entity; in half of the scenarios all daemons number their transactions from the same value. Put ids must be pairwise distinct; every success claim must show that transaction's own content at its own destination (cross-wiring is recognised by the tag); every indication must name a "
+  "transaction's PDUs; a burst of 120..320 datagrams handed to one daemon in one instant with the receive transaction polled late, so that its mailbox runs full); strays include responses that carry the sequence number of a live send transaction but a foreign source entity; in half of the scenarios all daemons number their transactions from the same value; one Put in five is fire-and-forget (the user drops the channel on which the id is answered). Put ids must be pairwise distinct; every success claim must show that transaction's own content at its own destination (cross-wiring is recognised by the tag); every indication must name a "
   "transaction that exists at that entity; loss-free: every Put succeeds despite the strays; always: every transaction, including those started by strays, is gone at the end, no daemon stopped, and every daemon "
   "completes a fresh Put afterwards.",
   "Single-threaded deterministic scheduler (message orderings, seeded select! branches), not preemptive interleavings. Sampled: thousands of scenarios per run.",
